@@ -170,17 +170,18 @@ def check_case(case, workdir=None):
         pr.cleanup()
 
 
-def case_strategy():
+def strata():
     # every spelling of a mixed requires side is forced in turn (stratified, not left to chance)
     forms = [gen_cfg.model_and_spec(force=['many_ports'], want_mixed=True, req_form=f)
              for f in ('both', 'sts+rem', 'rem+mts')]
-    return st.one_of(
+    return [
         *forms,
         gen_cfg.model_and_spec(force=['many_ports', 'inout_mix'], want_mixed=True, req_form='sts+rem'),
         gen_cfg.model_and_spec(want_mc=True, force=['many_ports'], want_mixed=True),
+        gen_cfg.model_and_spec(force=['many_provides']),
         gen_cfg.model_and_spec(force=['out_many_formals', 'shared_itf', 'many_ports']),
         gen_cfg.model_and_spec(force=['ref_extern', 'out_many_formals', 'many_ports'], want_mixed=True),
-        gen_cfg.model_and_spec())
+        gen_cfg.model_and_spec()]
 
 
 def run(ctx):
@@ -190,10 +191,10 @@ def run(ctx):
         if ctx.replay.get('clause') == name:
             ctx._run_one(name, lambda c: check_case(c), ctx.replay['case'])  # pylint: disable=protected-access,unnecessary-lambda
         return
-    from vf.draw import draw_cases
+    from vf.draw import draw_stratified
     from vf.runner import case_hash, load_regress
-    cases = load_regress(ctx.prop, name) + draw_cases(case_strategy(), 24 if ctx.quick else 250,
-                                                      ctx.seed)
+    cases = load_regress(ctx.prop, name) + draw_stratified(strata(), 24 if ctx.quick else 250,
+                                                           ctx.seed)
     done = {}
 
     def check(case, workdir):
